@@ -55,8 +55,7 @@ def rand_customs(rng, n, maxlen=3):
 
 def run(ctx):
     from harness.cli import c19_names, c19_files, c1819_lib as U
-    cli = build.cli("plain")
-    xz = cli["xz"]
+    xz = U.snapshot_bins(ctx)["xz"]
     q = ctx.quick
     rng = ctx.rng
     W = 4
@@ -65,7 +64,7 @@ def run(ctx):
     # ------------------------------------------------------------------ (M) launched in the background
     jobs = []
     if q:
-        ex = FIXED_CUSTOMS + rand_customs(rng, 10)
+        ex = FIXED_CUSTOMS + rand_customs(rng, 6)
         cfile = _customs_file(ctx, "mc_customs.ndjson", ex)
         jobs.append(("MCSuffix(names<=4 over 11 chars, customs: all <=1 + %d of length 2..4)" % len(ex), False,
                      pool.submit(tlc.run, "MCSuffix", cfg=mc_suffix_cfg(ctx, "mcs1.cfg", full, full, 4, 1, True),
@@ -74,10 +73,10 @@ def run(ctx):
                      pool.submit(tlc.run, "MCSuffix", cfg=mc_suffix_cfg(ctx, "mcs2.cfg", ["a", ".", "l", "z", "m", "t"],
                                  ["a", "z"], 6, 1, False), workers=2, timeout=900)))
     else:
-        ex = ["txz", "tlz", "lzma", ".txz", ".tlz", "a.xz", "x.lz", "zma/"]
-        cfile = _customs_file(ctx, "mc_customs.ndjson", [".txz", ".tlz", "a.xz", "x.lz", "lzma", "zma/"])
-        jobs.append(("MCSuffix(names<=4 over 11 chars, all customs <=3 over 10 chars + 6 of length 4)", True,
-                     pool.submit(tlc.run, "MCSuffix", cfg=mc_suffix_cfg(ctx, "mcs1.cfg", full, ALPHA, 4, 3, True),
+        cfile = _customs_file(ctx, "mc_customs.ndjson", [".txz", ".tlz", "a.xz", "x.lz", "lzma", "zma/", "-", "r", "o", "o.", "-x", "or"])
+        sa = ["a", ".", "x", "z", "t", "l", "m"]
+        jobs.append(("MCSuffix(names<=4 over 11 chars, all customs <=3 over {a . x z t l m} + 12 others)", True,
+                     pool.submit(tlc.run, "MCSuffix", cfg=mc_suffix_cfg(ctx, "mcs1.cfg", full, sa, 4, 3, True),
                                  workers=W, timeout=1500, env={"C19_CUSTOMS": cfile})))
         jobs.append(("MCSuffix(names<=5 over 11 chars, all customs <=1)", True,
                      pool.submit(tlc.run, "MCSuffix", cfg=mc_suffix_cfg(ctx, "mcs2.cfg", full, full, 5, 1, False),
@@ -127,7 +126,7 @@ def run(ctx):
     hot = [p for p in uniq if c19_names.interesting(p)]
     cold = [p for p in uniq if not c19_names.interesting(p)]
     rng.shuffle(hot); rng.shuffle(cold)
-    nh, nc = (900, 500) if q else (9000, 5000)
+    nh, nc = (650, 350) if q else (9000, 5000)
     chosen = hot[:nh] + cold[:nc]
     rng.shuffle(chosen)
     done = c19_names.run_name_cases(ctx, xz, pay, chosen, budget=len(chosen) * 5)
@@ -157,7 +156,6 @@ def run(ctx):
         raise MachineryError("GenAttrs predicted %d of %d scenarios\n%s" % (len(preds), len(sc), ga.out[-1500:]))
     import shutil
     shutil.copy(xz, os.path.join(ctx.workdir, "xz-copy"))          # executable by the unprivileged user
-    os.chmod(ctx.workdir, 0o755); os.chmod(os.path.join(ctx.workdir, "files") if os.path.isdir(os.path.join(ctx.workdir, "files")) else ctx.workdir, 0o755)
     rx = U.run([xz, "-0", "-c"], input=c19_files.PLAIN)
     def one(i):
         c19_files.run_scenario(ctx, xz, sc[i], preds[sc[i]["id"]], rx.stdout, i)
